@@ -108,6 +108,7 @@ def run_threads(m, sc, log=None):
             m.win = sch.window(t, r)
             if m.win is None: continue
             m.before = sch.before(t, r)
+            if m.race is not None: m.race.reset_pass(t)
             m.upto = sch.upto(t, r)
             m.run_entry('vp_thread%d' % t)
             m.thread_exit()
